@@ -498,6 +498,9 @@ func sortedBeforeRead(a *FnA, phi *ssa.Phi, ml *mapLoop) (bool, string) {
 		if mi, ok := r.(*ssa.MakeInterface); ok && len(nonDebugRefs(mi)) == 1 && nonDebugRefs(mi)[0] == sortCall {
 			continue
 		}
+		if orderFreeUse(a, r, phi) {
+			continue
+		}
 		sb, rb := sortCall.Block(), r.Block()
 		if sb == rb {
 			if instrIndex(sortCall) < instrIndex(r) {
@@ -570,6 +573,15 @@ func cellSortedBeforeRead(a *FnA, cell *ssa.Alloc, ml *mapLoop) (bool, string) {
 			}
 		}
 		if isSortArg {
+			continue
+		}
+		orderFree := len(nonDebugRefs(l)) > 0
+		for _, r := range nonDebugRefs(l) {
+			if !orderFreeUse(a, r, l) {
+				orderFree = false
+			}
+		}
+		if orderFree {
 			continue
 		}
 		sb, lb := sortCall.Block(), l.Block()
@@ -766,4 +778,17 @@ func sortComplaint(why string) string {
 		return "is sorted by a key two entries may share"
 	}
 	return "is read before being sorted"
+}
+
+// orderFreeUse: a use of the collected (not yet sorted) slice v that cannot observe its order: its
+// length, or anything at a point where the slice is known to have exactly one element.
+func orderFreeUse(a *FnA, r ssa.Instruction, v ssa.Value) bool {
+	if call, ok := r.(*ssa.Call); ok {
+		if bi, ok := call.Call.Value.(*ssa.Builtin); ok && (bi.Name() == "len" || bi.Name() == "cap") {
+			return true
+		}
+	}
+	d := a.Desc(v)
+	w := a.FactsAt(r.Block())
+	return w.Has("eq(1,builtin.len("+d+"))", true) || (w.Has("lt(1,builtin.len("+d+"))", false) && w.Has("empty("+d+")", false))
 }
